@@ -27,3 +27,9 @@ package halts
 //@   loop 0 invariant bounds: -1 <= rangeindex && (rangeindex < len(model.List) || (rangeindex == -1 && len(model.List) == 0))
 //@   loop 0 invariant none: forall b int :: 0 <= b && b <= rangeindex ==> model.List[b].Pubkey != pubkey
 //@   modifies mapof(hb.list)
+
+//@ # ASSUMED summary: dropping the halt-vote record of a height touches the halts module only
+//@ ghost haltsAbs() int
+//@ func (*HaltBlocks).Delete
+//@   trusted
+//@   modifies haltsAbs, mapof(hb.list)
